@@ -3,6 +3,7 @@ package pgmem
 import (
 	"encoding/binary"
 	"net"
+	"time"
 
 	"github.com/jackc/pgproto3/v2"
 )
@@ -42,6 +43,7 @@ type msg struct {
 
 type conn struct {
 	nc      net.Conn
+	peer    net.Conn // client end of an in-process pipe, nil otherwise
 	be      *pgproto3.Backend
 	db      *DB
 	inc     *incarnation
@@ -77,6 +79,11 @@ func (c *conn) flush() error {
 
 // serveConn runs the server side of one connection until the peer goes away.
 func serveConn(nc net.Conn, pick func(database string) *DB, incarnation string) {
+	serveConnPeer(nc, nil, pick, incarnation)
+}
+
+// serveConnPeer is serveConn for a pipe whose client end is known (needed for TimeoutConn).
+func serveConnPeer(nc, peer net.Conn, pick func(database string) *DB, incarnation string) {
 	defer nc.Close()
 	be := pgproto3.NewBackend(pgproto3.NewChunkReader(nc), nc)
 	var params map[string]string
@@ -109,7 +116,7 @@ func serveConn(nc net.Conn, pick func(database string) *DB, incarnation string) 
 	if incarnation == "" {
 		incarnation = params["application_name"]
 	}
-	c := &conn{nc: nc, be: be, db: db, stmts: map[string]*prepared{}, portals: map[string]*portal{}}
+	c := &conn{nc: nc, peer: peer, be: be, db: db, stmts: map[string]*prepared{}, portals: map[string]*portal{}}
 	c.sess = &session{db: db}
 	db.mu.Lock()
 	db.nextConn++
@@ -239,6 +246,15 @@ func (c *conn) openRoundTrip() (proceed bool, drop bool) {
 		case DropConn:
 			c.rtOpen = false
 			return false, true
+		case TimeoutConn:
+			c.rtOpen = false
+			if c.peer == nil {
+				return false, true
+			}
+			// the client's read times out; this end stays open (and silent) until the client closes
+			_ = c.peer.SetReadDeadline(time.Unix(1, 0))
+			c.frozen = true
+			return false, false
 		case FailStatement:
 			c.rtFailPending = true
 		case CrashAfterCommit:
